@@ -1751,6 +1751,37 @@ def shift_range(tu, n, env, field, depth=0):
     return None
 
 
+def check_adaptor_ownership(ctx, tu):
+    """R-C17-5 (ownership): an adaptor names cells of the arrays it was built from; it must hold them itself (shared_ptr / a copy of
+    the slice table).  A member of reference type is bound to an object of the caller: when the caller changes or destroys that
+    object the adaptor names other cells, or none."""
+    R = 'R-C17-5'
+    n = 0
+    seen = set()
+    for r in tu.records.values():
+        cls = (r.get('tmpl') or r.get('q') or '').split('::')[-1]
+        if cls not in ('IndexShiftedArray3D', 'SubBoxArray3D', 'Array3DAccessor', 'MultiSliceArray3D', 'Array3DRepeater') or not r.get('fields'):
+            continue
+        if r.get('q') in seen:
+            continue
+        seen.add(r.get('q'))
+        n += 1
+        inst = 'ownership of the members of %s' % cls
+        refs = [f_ for f_ in r['fields'] if f_['ct'].rstrip().endswith('&')]
+        ptrs = [f_ for f_ in r['fields'] if f_['ct'].rstrip().endswith('*')]
+        if refs:
+            f_ = refs[0]
+            ctx.violation(R, inst, 'member `%s` has the reference type `%s`: the adaptor refers to an object of whoever constructed it '
+                          'instead of owning it - if that object is modified, reused or destroyed after construction the adaptor silently '
+                          'names other cells (or dangles); the adaptors hold what they wrap by value (shared_ptr, a copy of the table)'
+                          % (f_['name'], f_['type']), A3D, key='%s|%s|%s|reference-member' % (R, A3D, cls))
+        elif ptrs:
+            ctx.undecided(R, inst, 'member `%s` is a raw pointer (%s): ownership not decided' % (ptrs[0]['name'], ptrs[0]['type']), A3D)
+        else:
+            ctx.ok(R, inst, 'members %s are held by value' % ', '.join(f_['name'] for f_ in r['fields']), A3D, nontrivial=False)
+    ctx.floor(R, n, 4, 'adaptor classes instantiated by %s' % AST_DRIVER)
+
+
 def check_shift_range(ctx, tu):
     R = 'R-C17-5'
     n = 0
@@ -2012,6 +2043,96 @@ def z_slab_region(tu, call, a0, a1, pb, pe, env):
     return False
 
 
+def full_range_shortcut(tu, f, body, skip, rv):
+    """the update of the running range is skipped when a flag is set: accepted when the flag means `the range already spans
+    every value of the element type` with the true extremes of that type.  -> ('ok' | 'violation' | 'undecided', text[, key])"""
+    st, cond, upd = skip
+    c = tu.strip(cond, casts=True)
+    if c is None or c.get('kind') != 'DeclRefExpr':
+        return ('undecided', 'the update `%s` is skipped when `%s` holds: not a recognised full-range shortcut' % (tu.show(upd)[:50], tu.show(cond)[:60]))
+    flag = c.get('referencedDecl', {}).get('id')
+    env = {}
+    for d_ in tu.walk(body):
+        if d_.get('kind') == 'VarDecl' and 'id' in d_ and d_['id'] not in env and tu.kids(d_) and tu.kids(d_)[-1].get('kind') != 'LambdaExpr' \
+                and 'range_t<' not in d_.get('type', {}).get('qualType', ''):
+            env[d_['id']] = nf(tu, tu.kids(d_)[-1], env)
+    assigns = [x for x in tu.walk(body) if x.get('kind') == 'BinaryOperator' and x.get('opcode') == '=' and 'id' in x and
+               (tu.strip(tu.kids(x)[0]) or {}).get('kind') == 'DeclRefExpr' and tu.strip(tu.kids(x)[0]).get('referencedDecl', {}).get('id') == flag]
+    if len({x['id'] for x in assigns}) != 1:
+        return ('undecided', 'the skip flag `%s` is assigned in %d places' % (c.get('referencedDecl', {}).get('name'), len({x['id'] for x in assigns})))
+    rhs = tu.kids(assigns[0])[1]
+    conj = []
+
+    def split(e):
+        e0 = tu.strip(e, casts=True)
+        if e0 is not None and e0.get('kind') == 'BinaryOperator' and e0.get('opcode') == '&&':
+            for k_ in tu.kids(e0):
+                split(k_)
+        else:
+            conj.append(e0)
+    split(rhs)
+    r = tu.records.get(f.get('recid')) or {}
+    T = ([a_.get('t') for a_ in r.get('targs', []) if 't' in a_] or ['?'])[0]
+    integral = T in INT_TYPES
+    floating = T in ('float', 'double', 'long double')
+    vname = ('ref', 'VarDecl', rv.get('name'))
+    sides = {}
+    for e0 in conj:
+        if e0 is None:
+            return ('undecided', 'skip condition not recognised')
+        if tu.sd(e0).get('cv') == '0':
+            return ('ok', 'the shortcut is compiled out for this element type')
+        if tu.sd(e0).get('cv') not in (None, '0'):
+            continue            # a compile-time true conjunct
+        t = drop_casts(nf(tu, e0, env))
+        negd = False
+        if t[0] == 'un' and t[1] == '!':
+            negd, t = True, t[2]
+        if t[0] != 'op' or t[1] not in ('<', '<=', '>', '>=') or len(t[2]) != 2:
+            return ('undecided', 'conjunct `%s` of the skip condition is not a comparison of a bound with a limit' % tu.show(e0)[:60])
+        a, b = t[2]
+        rel = t[1]
+        if rel in ('>', '>='):
+            a, b, rel = b, a, {'>': '<', '>=': '<='}[rel]
+        if negd:          # !(a < b) == b <= a ;  !(a <= b) == b < a
+            a, b, rel = b, a, '<=' if rel == '<' else '<'
+        # now  a rel b  with rel in {<, <=}
+        if a == ('mem', vname, 'lower'):
+            sides['lower'] = (b, rel)
+        elif b == ('mem', vname, 'upper'):
+            sides['upper'] = (a, rel)
+        else:
+            return ('undecided', 'conjunct `%s` does not bound lower from above or upper from below' % tu.show(e0)[:60])
+    if set(sides) != {'lower', 'upper'}:
+        return ('undecided', 'the skip condition does not test both bounds')
+
+    def limit(t):
+        sign = 1
+        if t[0] == 'un' and t[1] == '-':
+            sign, t = -1, t[2]
+        if t[0] == 'call' and strip_targs(t[1]).startswith('std::numeric_limits::'):
+            return sign, strip_targs(t[1]).split('::')[-1]
+        return None
+    lo_, hi_ = limit(sides['lower'][0]), limit(sides['upper'][0])
+    if lo_ is None or hi_ is None:
+        return ('undecided', 'the limits of the skip condition are not numeric_limits values')
+    lo_ok = (integral and lo_ in ((1, 'min'), (1, 'lowest'))) or (floating and lo_ == (-1, 'infinity'))
+    hi_ok = (integral and hi_ == (1, 'max')) or (floating and hi_ == (1, 'infinity'))
+    if lo_ok and hi_ok:
+        return ('ok', 'scan stops once the range spans the whole value type')
+    if floating and not lo_ok:
+        what = {(1, 'min'): 'numeric_limits<%s>::min() is the smallest positive normal value (about 1.2e-38), not the lowest value' % T,
+                (1, 'lowest'): 'numeric_limits<%s>::lowest() is not below -infinity, which a cell may hold' % T}.get(lo_, 'that is not the lowest value of %s' % T)
+        return ('violation', 'the scan stops as soon as lower <= %s%s() and upper >= %s(): %s, so for element type %s the rest of the region '
+                'is skipped although a later cell can still lower the minimum - the returned range then does not contain every value of the '
+                'region (for the integral element types the same shortcut is exact)'
+                % ('-' if lo_[0] < 0 else '', lo_[1], hi_[1], what, T), 'skip-not-full-range')
+    if floating and not hi_ok:
+        return ('violation', 'the scan stops once upper >= numeric_limits<%s>::%s(), which is not the largest value a cell can hold (+infinity): '
+                'later larger cells are skipped' % (T, hi_[1]), 'skip-not-full-range')
+    return ('undecided', 'limits %s / %s for element type %s' % (lo_, hi_, T))
+
+
 def check_value_range(ctx, tu):
     R = 'R-C17-6'
     ctx.describe(R, 'getValueRange: after each visited value t the running range satisfies lower <= t <= upper (extend(), two independent '
@@ -2185,6 +2306,38 @@ def check_value_range(ctx, tu):
                 locked += 1
             elif racy is None:
                 racy = (x, par_lambda[1])
+        # an update that is skipped under some condition leaves cells of the region out, unless the condition proves that no
+        # later cell can change the range
+        skip = None
+        for x in extends + assigns:
+            tgt = tu.call_parts(x)[1] if x.get('kind') == 'CXXMemberCallExpr' else tu.kids(tu.strip(tu.kids(x)[0]))[0]
+            if not is_result(tgt):
+                continue
+            p_ = x
+            for _ in range(40):
+                q_ = tu.par(p_)
+                if q_ is None or q_.get('kind') in ('LambdaExpr', 'CXXMethodDecl', 'FunctionDecl', 'ForStmt', 'WhileStmt'):
+                    break
+                if q_.get('kind') == 'CompoundStmt':
+                    for st in tu.kids(q_):
+                        if st is p_ or st.get('id') == p_.get('id'):
+                            break
+                        if st.get('kind') == 'IfStmt':
+                            parts_ = [y for y in st.get('inner', []) if isinstance(y, dict) and y.get('kind')]
+                            th_ = parts_[1] if len(parts_) > 1 else None
+                            while th_ is not None and th_.get('kind') == 'CompoundStmt' and len(tu.kids(th_)) == 1:
+                                th_ = tu.kids(th_)[0]
+                            if th_ is not None and th_.get('kind') in ('ReturnStmt', 'ContinueStmt', 'BreakStmt'):
+                                skip = (st, parts_[0], x)
+                p_ = q_
+        if skip is not None and racy is None:
+            verdict = full_range_shortcut(tu, f, body, skip, rv)
+            if verdict[0] == 'violation':
+                ctx.violation(R, inst, verdict[1], tu.loc(skip[0]), key=key + verdict[2])
+                continue
+            if verdict[0] == 'undecided':
+                ctx.undecided(R, inst, verdict[1], tu.loc(skip[0]))
+                continue
         if racy is not None:
             x, cq = racy
             ctx.violation(R, inst, 'the result range `%s` is updated by `%s` inside a callable passed to %s without holding a lock: tasks run '
@@ -2356,9 +2509,13 @@ def check_get_clamps(ctx, ir, adims_by):
                     region.append('%s > d%s-1' % (names[k], names[k]))
                 elif not I.consistent(G + [I.ilit('slt', idx[k], 0)]) and not I.consistent(G + [I.ilit('slt', adims[k] - 1, idx[k])]):
                     region.append('%s inside' % names[k])
+            uns = any((I._lit_parts(l_) or ('',))[0] in ('ult', 'ule') for l_ in ga)
             ctx.violation(R, inst, 'for coordinates with %s the byte offset is %s, but the clamped cell is at %s: a coordinate outside the '
-                          'extent is not clamped to [0, dims-1]' % (', '.join(region) or 'guard ' + ' & '.join(map(str, ga)),
-                                                                    sp.expand(ta), sp.expand(tb)), A3D,
+                          'extent is not clamped to [0, dims-1]%s' % (', '.join(region) or 'guard ' + ' & '.join(map(str, ga)),
+                                                                    sp.expand(ta), sp.expand(tb),
+                                                                    ' (the bound is tested on the coordinate converted to an unsigned type, '
+                                                                    'where a negative coordinate is a huge value and lands on the far face)'
+                                                                    if uns else ''), A3D,
                           key='%s|%s|ActualArray3D::get|clamp' % (R, A3D),
                           path=['path/case of get(): %s' % ' & '.join(map(str, ga)), 'case of the definition: %s' % ' & '.join(map(str, gb)),
                                 'offset found   : %s' % sp.expand(ta), 'offset expected: %s' % sp.expand(tb)])
@@ -2387,6 +2544,7 @@ def run(ctx):
     check_iterator_lifetime(ctx, tu)
     check_iterators(ctx, ir)
     check_adaptors(ctx, tu)
+    check_adaptor_ownership(ctx, tu)
     check_shift_range(ctx, tu)
     check_value_range(ctx, tu)
     check_get_clamps(ctx, ir, adims)
